@@ -83,6 +83,12 @@ func init() {
 	for _, r := range wsRunes {
 		add(fmt.Sprintf("ws:cmt-wrapped-in-U+%04X", r), string(r)+";c\n"+string(r), false)
 	}
+	// comments that carry the boundary runes of UTF-8 decoding as raw bytes
+	for _, r := range edgeRunes {
+		add(fmt.Sprintf("ws:cmt-with-U+%04X", r), " ;c"+string(r)+"\n", false)
+		add(fmt.Sprintf("ws:cmt-of-U+%04X", r), " ;"+string(r)+string(r)+"\n", false)
+	}
+	add("ws:cmt-with-every-edge-rune", " ;"+string(edgeRunes)+"\n", false)
 	add("ws:cmt-crlf", " ;c\r\n", false)
 	add("ws:cmt-crlf-tab", "\t;c\r\n\t", false)
 	add("ws:gluecmt-crlf", ";c\r\n", true)
@@ -416,7 +422,8 @@ func (w *seqWorker) process(toks []tok, o *seqOpts) {
 		if o.frames && pa == 0 && n > 0 && toks[0].kind != tHash {
 			frames := [][2]string{{"\n", "\n"}, {" ;c\n", " ;c"}, {"", "\n\n;c\n"}}
 			if o.ws {
-				frames = append(frames, [2]string{wsAll, wsAll}, [2]string{"\t;c\r\n", "\r\n;c\r"}, [2]string{"\r", "\r"})
+				frames = append(frames, [2]string{wsAll, wsAll}, [2]string{"\t;c\r\n", "\r\n;c\r"}, [2]string{"\r", "\r"},
+					[2]string{";\ufeff bom\n", " ;" + string(edgeRunes)}, [2]string{";\ufffd\n", " ;\ufffd"})
 			}
 			for fi, fr := range frames {
 				w.buf = render(w.buf, toks, gaps, fr[0], fr[1])
@@ -470,9 +477,9 @@ func toJs(ns []*node) []jval {
 
 // tokAlphabetExt adds the radix macros, a bare integer and four malformed
 // items (a string cut by its line end, lone '#', an invalid UTF-8 byte, a
-// truncated float) to the token alphabet; it is explored for short sequences only.
+// truncated float), a bare byte-order mark and a bare U+FFFD to the token alphabet; it is explored for short sequences only.
 var tokAlphabetExt = append(append([]tok{}, tokAlphabet...),
-	tok{"#xF", tAtom}, tok{"#o7", tAtom}, tok{"1", tAtom}, tok{"\"u\n", tAtom}, tok{"#", tAtom}, tok{"\x80", tAtom}, tok{"1.", tAtom})
+	tok{"#xF", tAtom}, tok{"#o7", tAtom}, tok{"1", tAtom}, tok{"\"u\n", tAtom}, tok{"#", tAtom}, tok{"\x80", tAtom}, tok{"1.", tAtom}, tok{"\ufeff", tAtom}, tok{"\ufffd", tAtom})
 
 // seqTokens decodes the idx-th sequence of exactly n tokens of tokAlphabet.
 func (w *seqWorker) seqTokens(n int, idx int64) []tok { return w.seqTokensOver(tokAlphabet, n, idx) }
